@@ -66,7 +66,7 @@ Lemma wp_commit_usage (Q : unit -> state -> Prop) (E : exn -> state -> Prop) s :
 Proof. exact (fun H => H). Qed.
 
 Lemma wp_send c f (Q : unit -> state -> Prop) (E : exn -> state -> Prop) s :
-  Q tt (set_log s (LFrame c f (is_clean s) :: log s)) -> wp (send c f) Q E s.
+  Q tt (set_log s (LFrame c f (is_clean s) (now s) :: log s)) -> wp (send c f) Q E s.
 Proof. exact (fun H => H). Qed.
 
 Lemma wp_get_conn c (Q : conn_state -> state -> Prop) (E : exn -> state -> Prop) s :
